@@ -21,8 +21,10 @@ package checks
 // Absolute link targets and absolute entry names only ever point inside T.
 
 import (
+	"bytes"
 	"encoding/json"
 	"fmt"
+	"io"
 	"math/rand"
 	"os"
 	"path"
@@ -133,7 +135,7 @@ func (n *hNode) encode(b *dagB) []byte {
 	case "raw":
 		c = b.putRaw(n.Content)
 	case "file":
-		c = b.putPB(encodePBNode(nil, ufsDataMsg{Type: ufsFile, Data: n.Content, HasData: true, FileSize: uint64(len(n.Content)), HasSize: true}.encode()))
+		c = b.putPB(encodePBNode(nil, ufsDataMsg{Type: ufsFile, Data: n.Content, HasData: true, FileSize: uint64(len(n.Content)), HasSize: true, Mtime: 978307200, HasMtime: len(n.Content)%2 == 0}.encode()))
 	case "chunked":
 		var links []pbLinkSpec
 		var sizes []uint64
@@ -194,7 +196,8 @@ func (n *hNode) encode(b *dagB) []byte {
 		}
 		c = []byte(l.Binary())
 	case "symlink":
-		c = b.putPB(encodePBNode(nil, ufsDataMsg{Type: ufsSymlink, Data: []byte(n.Target), HasData: true}.encode()))
+		// with UnixFS 1.5 metadata (mode, mtime): an extractor that restores it must not follow the link
+		c = b.putPB(encodePBNode(nil, ufsDataMsg{Type: ufsSymlink, Data: []byte(n.Target), HasData: true, Mtime: 978307200, HasMtime: len(n.Target)%2 == 0}.encode()))
 	case "badtype":
 		c = b.putPB(encodePBNode(nil, ufsDataMsg{Type: 9, Data: n.Content, HasData: true}.encode()))
 	case "metadata":
@@ -412,11 +415,24 @@ func c17Shapes() []c17Shape {
 		{label: "name with several separators through symlink into an existing tree", wrote: true, dir: func(e *hEnv, d int) ([]hEntry, []string) {
 			// every intermediate component of the later names exists below the link's target
 			t := []string{filepath.Join(e.S, "victimdir"), up(d) + "victimdir"}[e.r.Intn(2)]
-			ents := []hEntry{hEnt("d", hSym(t)), hEnt("d/etc/cron.d/job", e.file("job")), hEnt("d/etc/passwd", e.file("passwd"))}
+			// the tool stops at the first entry it refuses: which hostile name comes first is drawn
+			hostile := []hEntry{hEnt("d/etc/cron.d/job", e.file("job")), hEnt("d/etc/passwd", e.file("passwd")), hEnt("d/planted-by-escape/x.txt", e.file("x"))}
+			e.r.Shuffle(len(hostile), func(i, j int) { hostile[i], hostile[j] = hostile[j], hostile[i] })
+			ents := append([]hEntry{hEnt("d", hSym(t))}, hostile...)
 			if e.r.Intn(2) == 0 {
 				ents = append(ents, hEnt("d/etc/newdir", hDir(hEnt("inner.txt", e.file("inner")))))
 			}
 			return ents, []string{"d"}
+		}},
+		{label: "symlinks named like the temporary sibling of a later file", wrote: true, dir: func(e *hEnv, d int) ([]hEntry, []string) {
+			// an extractor that writes "<name><suffix>" first and renames it must vet that name too
+			nm := e.uniq("doc")
+			var ents []hEntry
+			for _, suf := range []string{".partial", ".tmp", ".part", "~", ".new", ".download", ".swp", ".bak", ".temp", ".0"} {
+				ents = append(ents, hEnt(nm+suf, hSym(e.fileTarget(d))))
+			}
+			ents = append(ents, hEnt(nm, e.file("over")), hEnt("zz-"+nm, e.file("pad")))
+			return ents, []string{nm}
 		}},
 		{label: "name unknown", wrote: true, dir: func(e *hEnv, d int) ([]hEntry, []string) {
 			return []hEntry{hEnt("unknown", e.anyObject(d))}, []string{"unknown"}
@@ -557,6 +573,14 @@ func c17Shapes() []c17Shape {
 				roots = append(roots[:1], append([]*hNode{hDir(e.benign()...)}, roots[1:]...)...)
 			}
 			return hCase{Roots: roots, Paths: []string{nm}}
+		}},
+		{label: "temporary-sibling symlinks in one root, the file in a later root", wrote: true, whole: func(e *hEnv) hCase {
+			nm := e.uniq("doc")
+			var r1 []hEntry
+			for _, suf := range []string{".partial", ".tmp", ".part", "~", ".new", ".download", ".swp", ".bak", ".temp", ".0"} {
+				r1 = append(r1, hEnt(nm+suf, hSym(e.fileTarget(0))))
+			}
+			return hCase{Roots: []*hNode{hDir(append(e.benign(), r1...)...), hDir(append([]hEntry{hEnt(nm, e.file("over"))}, e.benign()...)...)}, Paths: []string{nm}}
 		}},
 		{label: "same-name symlink-then-directory across roots", wrote: true, whole: func(e *hEnv) hCase {
 			nm := c17Pool[e.r.Intn(3)]
@@ -772,6 +796,7 @@ func c17MakeBox(r *rand.Rand, state string) c17Box {
 	}
 	must(os.MkdirAll(b.Out, 0o755))
 	must(os.MkdirAll(filepath.Join(S, "work"), 0o755))
+	must(os.MkdirAll(filepath.Join(T, "p0", "tmp"), 0o755)) // TMPDIR of the tool: watched like everything else outside out/
 	must(os.MkdirAll(filepath.Join(S, "victimdir"), 0o755))
 	must(os.WriteFile(filepath.Join(S, "victim.txt"), []byte("sentinel: must never change\n"), 0o644))
 	must(os.WriteFile(filepath.Join(S, "victimdir", "file"), []byte("sentinel in a directory\n"), 0o600))
@@ -910,7 +935,12 @@ func runC17(t *mon.T, raw json.RawMessage) {
 			if err != nil {
 				panic(err)
 			}
-			res := runCar(cwd, stdin, 60*time.Second, args...)
+			var sin io.Reader
+			if stdin != nil {
+				sin = bytes.NewReader(stdin)
+			}
+			// the tool's temporary files, if it makes any, go inside the watched sandbox
+			res := runCarEnv(cwd, []string{"TMPDIR=" + filepath.Join(box.T, "p0", "tmp")}, sin, 60*time.Second, args...)
 			if res.TimedOut {
 				t.Inconclusive("car extract did not finish within the watchdog (shape %q, mode %s)", d.Shape, mode)
 				return
@@ -986,6 +1016,8 @@ func runC17(t *mon.T, raw json.RawMessage) {
 						sym = "link-retargeted-outside"
 					case "mode-changed":
 						sym = "mode-changed-outside"
+					case "mtime-changed":
+						sym = "mtime-changed-outside"
 					}
 					bySym[sym] = append(bySym[sym], x)
 				}
@@ -1002,7 +1034,7 @@ func runC17(t *mon.T, raw json.RawMessage) {
 						"out_after": abstractAll(listing(outAfter, 30)), "car_hex": fmt.Sprintf("%x", carBytes),
 					}, "car %s (output directory %s) %s %q outside the output directory; DAG class: %s",
 						quoteArgs(argsShown), d.Dir, map[string]string{"created-outside": "created", "deleted-outside": "deleted", "sentinel-modified": "overwrote",
-							"sentinel-replaced": "replaced", "link-retargeted-outside": "retargeted", "mode-changed-outside": "changed the mode of"}[sym],
+							"sentinel-replaced": "replaced", "link-retargeted-outside": "retargeted", "mode-changed-outside": "changed the mode of", "mtime-changed-outside": "changed the modification time of"}[sym],
 						"$T/"+x.Path, hc.Label)
 				}
 			}
